@@ -416,5 +416,7 @@ pub fn run(ctx: &Ctx) -> Vec<Eng> {
             crate::c01::mixed_pub(&mut e4, (m, s));
         }
     }
+    crate::c01::mixed_sweep(&mut e4);
+    e4.bounds.push_str("49 units x 4 values x 4 Time / 4 integer operands x 24 operator forms; plus, in the unit where the additive forms are legal, the Quantity operand = converted other operand x r for every r of a dense ratio grid (2^(i/16) over 2^-4..2^4 plus 1 +- 2^-k, k = 3..20) x 3 times / 2 integers");
     vec![e1, e2, e3, e4]
 }
